@@ -32,6 +32,7 @@ def function_events(ctx):
         if n == 3 and ctx.quick:
             allc = ctx.rng.sample(allc, 1500)
         combos += allc
+    same_sig = 'one signature object'
     for cn, c in enumerate(combos):
         sv = SignatureVerification()
         if len(c) >= 2 and cn % 2 == 1:
@@ -39,7 +40,9 @@ def function_events(ctx):
             # each of which has been evaluated before
             parts = [SignatureVerification(), SignatureVerification()]
             for j, bits in enumerate(c):
-                parts[0 if j == 0 else 1].add_sigsubj('sig%d' % j, 'key', 'subj%d' % j, SecurityIssues(bits))
+                # (every fourth combination examines ONE signature object several times - over different subjects / with different keys:
+                # an entry is an examination, not a signature)
+                parts[0 if j == 0 else 1].add_sigsubj(('sig%d' % j) if cn % 4 == 1 else same_sig, 'key', 'subj%d' % j, SecurityIssues(bits))
             bool(parts[0]), bool(parts[1]), list(parts[0].good_signatures), list(parts[1].bad_signatures)
             sv &= parts[0]
             bool(sv)
@@ -47,8 +50,8 @@ def function_events(ctx):
         else:
           for j, bits in enumerate(c):
             sv.add_sigsubj('sig%d' % j, 'key', 'subj%d' % j, SecurityIssues(bits))
-        good = [int(s.signature[3:]) + 1 for s in sv.good_signatures]
-        bad = [int(s.signature[3:]) + 1 for s in sv.bad_signatures]
+        good = [int(s.subject[4:]) + 1 for s in sv.good_signatures]
+        bad = [int(s.subject[4:]) + 1 for s in sv.bad_signatures]
         ev.append({'k': 'result', 'entries': list(c), 'truthy': bool(sv), 'good': good, 'bad': bad})
     return ev
 
